@@ -252,3 +252,12 @@ def judge_files(run, cases, rows, pid):
                         "%s: after step %d of case %d (%s %s %s/%s through the real lbc.sync, processChanges and Configurator) the configuration files that exist are not one per active resource: files %s, active %s"
                         % (pid, r[DFILES], c["id"], ev["op"], ev["spec"]["kind"], ev["spec"].get("ns"), ev["spec"].get("name"), json.dumps(st["files"]), json.dumps(served)),
                         theorem="Arb.Cases.files_ok")
+        elif len(r) > DFSPEC and r[DFSPEC] != 0:
+            st = c["ctl"][r[DFSPEC] - 1]
+            ev = c["histories"][0]["events"][r[DFSPEC] - 1]
+            run.failing({"kind": "files-vs-specified-served-set", "level": "controller", "event_kind": ev["spec"]["kind"]}, [c],
+                        "%s: after step %d of case %d (%s %s %s/%s through the real lbc.sync, the controller %s) the configuration files are not one per resource that the current object "
+                        "set makes active according to the specification (an event did not reach the arbitration, or its changes were not applied): files %s"
+                        % (pid, r[DFSPEC], c["id"], ev["op"], ev["spec"]["kind"], ev["spec"].get("ns"), ev["spec"].get("name"),
+                           "started with -watch-namespace" if c["id"] % 4 == 1 else "watching all namespaces", json.dumps(st["files"])),
+                        theorem="Arb.Cases.files_spec_run")
